@@ -20,7 +20,7 @@ m = {
         "add_only": True,
     },
     "engines": [dict(name=e, path="harness/cmd/%s + ocaml/%s_drv.ml + coq/theories/Extract/X_%s.v" % (e, e, e),
-                     serves_properties=sorted(p for p in PROPS if PROPS[p]["engine"] == e),
+                     serves_properties=sorted(p for p in PROPS if e in (PROPS[p].get("engines") or [PROPS[p]["engine"]])),
                      kind_free_text=next((PROPS[p].get("engine_text") for p in sorted(PROPS) if PROPS[p]["engine"] == e and PROPS[p].get("engine_text")), "")) for e in ENGINES],
     "checks": [],
     "not_applicable": [],
